@@ -162,7 +162,7 @@ def rule_X(ctx):
                 tset = set(_segs(target))
                 # ... and costs that double precision tells apart but a narrower table would not: differences of 2^-30 around 1,
                 #     magnitudes of 1e299-1e300 (the library's own sentinel for "no segment")
-                for lo, hi in ((1, 10), (-10, -1)) + (((1.0, 1.0 + 2.0 ** -30), (1e299, 1e300)) if n in (3, 4, 5) else ()):
+                for lo, hi in ((1, 10), (-10, -1)) + (((1.0, 1.0 + 2.0 ** -30), (1e299, 1e300), (1e-11, 1e-10), (-1e-10, -1e-11)) if n in (3, 4, 5) else ()):
                     # (lo, hi) = (1, 10): the segments of the target are cheap (dear when maximising), all others dear (cheap);
                     # (-10, -1): the same with negative costs.  Any other list then has a strictly worse sum.
                     good, other = (lo, hi) if want_min else (hi, lo)
